@@ -296,6 +296,9 @@ func c19LimitsFor(tier string) c19Limits {
 	if tier == "thorough" {
 		return c19Limits{lists: 3000, docLists: true, joint: 24, orders: 8, plainReps: 50, plainProc: 3}
 	}
+	if tier == "smoke" { // determinism self-test only
+		return c19Limits{lists: 25, docLists: false, joint: 3, orders: 2, plainReps: 5, plainProc: 2}
+	}
 	return c19Limits{lists: 220, docLists: true, joint: 6, orders: 3, plainReps: 50, plainProc: 3}
 }
 
@@ -342,9 +345,11 @@ func RunC19(cfg Config) (*ShardResult, error) {
 	run := func(ep Episode) bool {
 		v, results := CheckEpisode(ep)
 		nontrivial := false
+		epKey := string(mustJSON(ep))
 		for i, r := range results {
 			res.Evaluations++
 			res.SimEvents += int64(len(r.Occ) + len(r.ClockGot))
+			res.Note(epKey, fmt.Sprint(i), r.Class, canon.HashBytes(r.Out), fmt.Sprint(r.Occ, r.ClockGot), r.After)
 			for _, o := range r.Occ {
 				if o.N >= 2 {
 					nontrivial = true
